@@ -21,9 +21,16 @@
  *
  * Abstract view and ghost witnesses (DESIGN §4.3/§4.4), switched on by g_on, pinned to the pre-state in `requires`:
  *   g_pj                     arbitrary byte position inside an element
- *   g_ck,g_cb,g_cnt          arbitrary element class (key byte, byte at g_pj) and the number of stored elements in it:
- *                            "contents equal a reference multiset" is stated as the exact update of g_cnt
  *   g_ki,g_ki_key,g_ki_b,g_ki_bp   arbitrary slot: its element (key, byte g_pj) and its handle pointer before the call
+ *   g_pos                    CURSOR: the slot that currently holds the element that was in slot g_ki before the call.
+ *                            "contents equal a reference multiset" is stated pointwise: after the call the element (and
+ *                            handle) of the arbitrary old slot g_ki is in slot g_pos, unless it is the one taken out; the
+ *                            pushed element is followed the same way (g_ki == old length).  The cursor is moved only by
+ *                            the element swap (s_swap, see pq_swap_tracked), as the image under the transposition (a b);
+ *                            old slot -> new slot is therefore a composition of transpositions (a bijection), which is
+ *                            what makes the pointwise statement a multiset statement.  (Counting formulations -
+ *                            "number of stored elements of a class is unchanged" - were tried and are out of reach of
+ *                            the SAT back end even for one symbolic swap of 7 elements.)
  *   g_h,g_h_idx,g_h_inq,g_h_key,g_h_b   arbitrary handle of the pool: its index field, whether it is in the queue,
  *                            and the element (key, byte g_pj) it identifies before the call
  * A handle h is "in the queue" iff  bp live && g_nodes[h].current_index < length && bp[current_index] == &g_nodes[h].
@@ -51,14 +58,10 @@
 
 #if VERIF_PQ_N == 7
 #    define PQ_ALL(M, q, x) (M(q, x, 0) && M(q, x, 1) && M(q, x, 2) && M(q, x, 3) && M(q, x, 4) && M(q, x, 5) && M(q, x, 6))
-#    define PQ_SUM(M, q) (M(q, 0) + M(q, 1) + M(q, 2) + M(q, 3) + M(q, 4) + M(q, 5) + M(q, 6))
 #elif VERIF_PQ_N == 15
 #    define PQ_ALL(M, q, x)                                                                                            \
         (M(q, x, 0) && M(q, x, 1) && M(q, x, 2) && M(q, x, 3) && M(q, x, 4) && M(q, x, 5) && M(q, x, 6) && M(q, x, 7) && \
          M(q, x, 8) && M(q, x, 9) && M(q, x, 10) && M(q, x, 11) && M(q, x, 12) && M(q, x, 13) && M(q, x, 14))
-#    define PQ_SUM(M, q)                                                                                               \
-        (M(q, 0) + M(q, 1) + M(q, 2) + M(q, 3) + M(q, 4) + M(q, 5) + M(q, 6) + M(q, 7) + M(q, 8) + M(q, 9) + M(q, 10) + \
-         M(q, 11) + M(q, 12) + M(q, 13) + M(q, 14))
 #else
 #    error "VERIF_PQ_N must be 7 or 15 (complete binary tree of depth 3 or 4)"
 #endif
@@ -68,15 +71,12 @@ uint8_t g_rank[256];                           /* arbitrary rank of every key by
 struct aws_priority_queue_node g_nodes[PQK];   /* handle pool (arena, DESIGN §4.5) */
 struct aws_allocator g_pq_alloc;               /* the allocator of dynamic queues (only its address matters) */
 size_t g_pj;
-uint8_t g_ck, g_cb;
-size_t g_cnt;
-size_t g_ki;
+size_t g_ki, g_pos;
 uint8_t g_ki_key, g_ki_b;
 struct aws_priority_queue_node *g_ki_bp;
 size_t g_h, g_h_idx;
 bool g_h_inq;
 uint8_t g_h_key, g_h_b;
-uint8_t g_r_key, g_r_b; /* remove/pop: the element that is to leave (key, byte g_pj) */
 bool g_moved;           /* sift: whether the element has to move */
 
 int pq_rank_cmp(const void *a, const void *b) {
@@ -117,7 +117,8 @@ int pq_rank_cmp(const void *a, const void *b) {
 #define PQ_IN_POOL(p)                                                                                                  \
     (__CPROVER_same_object((p), g_nodes) && __CPROVER_POINTER_OFFSET(p) < sizeof(g_nodes) &&                           \
      __CPROVER_POINTER_OFFSET(p) % sizeof(struct aws_priority_queue_node) == 0)
-#define PQ_H1(q, x, i) ((i) >= PQ_LEN(q) || PQ_BPA(q)[i] == NULL || (PQ_IN_POOL(PQ_BPA(q)[i]) && PQ_BPA(q)[i]->current_index == (i)))
+#define PQ_HIDX(p) ((size_t)__CPROVER_POINTER_OFFSET(p) / sizeof(struct aws_priority_queue_node))
+#define PQ_H1(q, x, i) ((i) >= PQ_LEN(q) || PQ_BPA(q)[i] == NULL || (PQ_IN_POOL(PQ_BPA(q)[i]) && g_nodes[PQ_HIDX(PQ_BPA(q)[i])].current_index == (i)))
 #define PQ_HANDLES(q) (!PQ_BP_LIVE(q) || PQ_ALL(PQ_H1, q, 0))
 /* pool handle number h / handle pointer p identifies a slot of the queue */
 #define PQ_INQ_P(q, p) (PQ_BP_LIVE(q) && (p)->current_index < PQ_LEN(q) && PQ_BPA(q)[(p)->current_index] == (p))
@@ -147,21 +148,20 @@ int pq_rank_cmp(const void *a, const void *b) {
 #define PQ_DESC(x, k)                                                                                                  \
     ((k) == (x) || (((k) + 1) >> 1) == (x) + 1 || (((k) + 1) >> 2) == (x) + 1 || (((k) + 1) >> 3) == (x) + 1)
 
-/* ---- multiset view: number of stored elements in the ghost class ---- */
-#define PQ_C1(q, i) (((i) < PQ_LEN(q) && PQ_KEY(q, i) == g_ck && PQ_B(q, i, g_pj) == g_cb) ? (size_t)1 : (size_t)0)
-#define PQ_CNT(q) PQ_SUM(PQ_C1, q)
-#define PQ_IN_CLASS(key, b) (((key) == g_ck && (b) == g_cb) ? (size_t)1 : (size_t)0)
-
 /* ---- witnesses pinned to the pre-state ---- */
+/* kimax: largest meaningful ghost slot (length-1 for everything but push, where the slot `length` is the new element) */
 #define PQ_REQ_WITNESSES(q)                                                                                            \
-    __CPROVER_requires(g_on ==> g_pj < ISZ && g_h < PQK)                                                               \
-    __CPROVER_requires(g_on ==> g_cnt == PQ_CNT(q))                                                                    \
+    __CPROVER_requires(g_on ==> g_pj < ISZ && g_h < PQK && g_pos == g_ki)                                              \
     __CPROVER_requires(g_on && g_ki < PQ_LEN(q) ==> g_ki_key == PQ_KEY(q, g_ki) && g_ki_b == PQ_B(q, g_ki, g_pj) &&    \
-                                                     (PQ_BP_LIVE(q) ==> g_ki_bp == PQ_BPA(q)[g_ki]))                   \
+                                                     g_ki_bp == (PQ_BP_LIVE(q) ? PQ_BPA(q)[g_ki] : NULL))              \
     __CPROVER_requires(g_on ==> g_h_idx == g_nodes[g_h].current_index && g_h_inq == PQ_INQ(q, g_h))                    \
     __CPROVER_requires(g_on && g_h_inq ==> g_h_key == PQ_KEY(q, g_h_idx) && g_h_b == PQ_B(q, g_h_idx, g_pj))
-/* the ghost slot is exactly as before (element and handle) */
-#define PQ_SLOT_SAME(q) (PQ_KEY(q, g_ki) == g_ki_key && PQ_B(q, g_ki, g_pj) == g_ki_b && (PQ_BP_LIVE(q) ==> PQ_BPA(q)[g_ki] == g_ki_bp))
+/* slot i holds the ghost element (and its handle, if the queue has handles) */
+#define PQ_SLOT_IS(q, i) (PQ_KEY(q, i) == g_ki_key && PQ_B(q, i, g_pj) == g_ki_b && (PQ_BP_LIVE(q) ==> PQ_BPA(q)[i] == g_ki_bp))
+/* the ghost slot is exactly as before (element and handle), and the cursor did not move */
+#define PQ_SLOT_SAME(q) (PQ_SLOT_IS(q, g_ki) && g_pos == g_ki)
+/* the element of the old ghost slot is still stored: the cursor is a slot of the queue and holds it */
+#define PQ_CURSOR_OK(q) (g_pos < PQ_LEN(q) && PQ_SLOT_IS(q, g_pos))
 /* the ghost handle still identifies the element it identified before the call */
 #define PQ_H_TRACKS(q)                                                                                                 \
     (PQ_INQ(q, g_h) && PQ_KEY(q, g_nodes[g_h].current_index) == g_h_key && PQ_B(q, g_nodes[g_h].current_index, g_pj) == g_h_b)
@@ -176,47 +176,53 @@ int pq_rank_cmp(const void *a, const void *b) {
 #define PQ_A_POOL(q) PQ_BP_LIVE(q) : __CPROVER_object_whole(g_nodes)
 
 /* ------------------------------------------------------------------ s_swap */
-/* exchanges two elements together with their handles and rewrites the handles' indices; nothing else moves */
-static void s_swap(struct aws_priority_queue *queue, size_t a, size_t b)
-__CPROVER_requires(PQ_STATE(queue))
-__CPROVER_requires(a < PQ_LEN(queue) && b < PQ_LEN(queue))
-PQ_REQ_WITNESSES(queue)
-__CPROVER_requires(g_on ==> g_r_key == PQ_KEY(queue, a) && g_r_b == PQ_B(queue, a, g_pj))
-__CPROVER_assigns(a != b : __CPROVER_object_upto(PQ_DATA(queue) + a * ISZ, ISZ), __CPROVER_object_upto(PQ_DATA(queue) + b * ISZ, ISZ))
-__CPROVER_assigns(PQ_BP_LIVE(queue) : PQ_BPA(queue)[a], PQ_BPA(queue)[b])
-__CPROVER_assigns(PQ_BP_LIVE(queue) && PQ_BPA(queue)[a] != NULL : PQ_BPA(queue)[a]->current_index)
-__CPROVER_assigns(PQ_BP_LIVE(queue) && PQ_BPA(queue)[b] != NULL : PQ_BPA(queue)[b]->current_index)
-__CPROVER_ensures(PQ_STATE(queue))
-/* slot b now holds what slot a held; every other slot than a, b is as before (the g_ki witness covers slot b -> a) */
-__CPROVER_ensures(g_on ==> PQ_KEY(queue, b) == g_r_key && PQ_B(queue, b, g_pj) == g_r_b)
-__CPROVER_ensures(g_on && g_ki == b ==> PQ_KEY(queue, a) == g_ki_key && PQ_B(queue, a, g_pj) == g_ki_b &&
-                                        (PQ_BP_LIVE(queue) ==> PQ_BPA(queue)[a] == g_ki_bp))
-__CPROVER_ensures(g_on && g_ki < PQ_LEN(queue) && g_ki != a && g_ki != b ==> PQ_SLOT_SAME(queue))
-__CPROVER_ensures(g_on ==> PQ_CNT(queue) == g_cnt)
-PQ_ENS_NO_HANDLE_LEAVES(queue)
-/* the handle of old slot a is now in slot b (and says so) */
-__CPROVER_ensures(g_on && g_h_inq && g_h_idx == a ==> g_nodes[g_h].current_index == b)
-__CPROVER_ensures(g_on && g_h_inq && g_h_idx == b ==> g_nodes[g_h].current_index == a)
-__CPROVER_ensures(g_on && g_h_inq && g_h_idx != a && g_h_idx != b ==> PQ_H_UNTOUCHED)
+/* Exchanges two elements together with their handles and rewrites the handles' indices; nothing else moves; the
+ * ghost cursor follows (see the hook in the unit).  Written with __CPROVER_old; two flavours because old(bp[a]) is
+ * evaluated unguarded: queue with / without a handle array (enforced as s_swap/pq_swap_live, s_swap/pq_swap_plain). */
+#define PQ_SWAP_COMMON(queue, a, b)                                                                                    \
+    __CPROVER_requires(PQ_STATE(queue))                                                                                \
+    __CPROVER_requires(a < PQ_LEN(queue) && b < PQ_LEN(queue) && a != b && g_pj < ISZ)                                 \
+    __CPROVER_assigns(__CPROVER_object_upto(PQ_DATA(queue) + a * ISZ, ISZ), __CPROVER_object_upto(PQ_DATA(queue) + b * ISZ, ISZ), g_pos) \
+    __CPROVER_ensures(PQ_STATE(queue))                                                                                 \
+    __CPROVER_ensures(PQ_KEY(queue, a) == OLD(PQ_KEY(queue, b)) && PQ_KEY(queue, b) == OLD(PQ_KEY(queue, a)))          \
+    __CPROVER_ensures(PQ_B(queue, a, g_pj) == OLD(PQ_B(queue, b, g_pj)) && PQ_B(queue, b, g_pj) == OLD(PQ_B(queue, a, g_pj))) \
+    __CPROVER_ensures(g_pos == (OLD(g_pos) == a ? b : (OLD(g_pos) == b ? a : OLD(g_pos))))
+
+void pq_swap_plain(struct aws_priority_queue *queue, size_t a, size_t b)
+__CPROVER_requires(!PQ_BP_LIVE(queue))
+PQ_SWAP_COMMON(queue, a, b)
+;
+
+void pq_swap_live(struct aws_priority_queue *queue, size_t a, size_t b)
+__CPROVER_requires(PQ_BP_LIVE(queue))
+PQ_SWAP_COMMON(queue, a, b)
+__CPROVER_assigns(PQ_BPA(queue)[a], PQ_BPA(queue)[b])
+__CPROVER_assigns(PQ_BPA(queue)[a] != NULL : PQ_BPA(queue)[a]->current_index)
+__CPROVER_assigns(PQ_BPA(queue)[b] != NULL : PQ_BPA(queue)[b]->current_index)
+/* the handles travel with their elements (and, by PQ_STATE, say so: bp[i]->current_index == i) */
+__CPROVER_ensures(PEQ(PQ_BPA(queue)[a], OLD(PQ_BPA(queue)[b])) && PEQ(PQ_BPA(queue)[b], OLD(PQ_BPA(queue)[a])))
 ;
 
 /* ------------------------------------------------------------------ sift */
-/* precondition: only the order below `root` may be broken.  Restores heap order; multiset, handles kept; slots outside
- * the subtree of root untouched; result says whether the element moved. */
+#define PQ_A_SIFT(q)                                                                                                   \
+    __CPROVER_assigns(PQ_A_ELEMS(q))                                                                                   \
+    __CPROVER_assigns(PQ_A_BPS(q))                                                                                     \
+    __CPROVER_assigns(PQ_A_POOL(q))                                                                                    \
+    __CPROVER_assigns(g_pos)
+
+/* precondition: only the order below `root` may be broken.  Restores heap order; every element (with its handle) is
+ * still stored; slots outside the subtree of root untouched; result says whether the element moved. */
 static bool s_sift_down(struct aws_priority_queue *queue, size_t root)
 __CPROVER_requires(PQ_STATE(queue))
 __CPROVER_requires(root < PQ_LEN(queue))
 __CPROVER_requires(PQ_HO_EXCEPT_DOWN(queue, root))
 PQ_REQ_WITNESSES(queue)
-__CPROVER_requires(g_on ==> g_moved == PQ_DOWN_MOVES(queue, root))
-__CPROVER_assigns(PQ_A_ELEMS(queue))
-__CPROVER_assigns(PQ_A_BPS(queue))
-__CPROVER_assigns(PQ_A_POOL(queue))
+__CPROVER_requires(g_on ==> g_ki < PQ_LEN(queue) && g_moved == PQ_DOWN_MOVES(queue, root))
+PQ_A_SIFT(queue)
 __CPROVER_ensures(PQ_STATE(queue) && PQ_HO(queue))
 __CPROVER_ensures(g_on ==> RET == g_moved)
-__CPROVER_ensures(g_on ==> PQ_CNT(queue) == g_cnt)
-__CPROVER_ensures(g_on && g_ki < PQ_LEN(queue) && !PQ_DESC(root, g_ki) ==> PQ_SLOT_SAME(queue))
-__CPROVER_ensures(g_on && g_ki < PQ_LEN(queue) && !g_moved ==> PQ_SLOT_SAME(queue))
+__CPROVER_ensures(g_on ==> PQ_CURSOR_OK(queue))
+__CPROVER_ensures(g_on && (!PQ_DESC(root, g_ki) || !g_moved) ==> PQ_SLOT_SAME(queue))
 PQ_ENS_NO_HANDLE_LEAVES(queue)
 ;
 
@@ -227,18 +233,15 @@ __CPROVER_requires(PQ_STATE(queue))
 __CPROVER_requires(index < PQ_LEN(queue))
 __CPROVER_requires(PQ_HO_EXCEPT(queue, index))
 PQ_REQ_WITNESSES(queue)
-__CPROVER_requires(g_on ==> g_moved == PQ_UP_MOVES(queue, index))
-__CPROVER_assigns(PQ_A_ELEMS(queue))
-__CPROVER_assigns(PQ_A_BPS(queue))
-__CPROVER_assigns(PQ_A_POOL(queue))
+__CPROVER_requires(g_on ==> g_ki < PQ_LEN(queue) && g_moved == PQ_UP_MOVES(queue, index))
+PQ_A_SIFT(queue)
 __CPROVER_ensures(PQ_STATE(queue))
 __CPROVER_ensures(RET ==> PQ_HO(queue))
 __CPROVER_ensures(!RET ==> PQ_HO_EXCEPT_DOWN(queue, index))
 __CPROVER_ensures(g_on ==> RET == g_moved)
-__CPROVER_ensures(g_on ==> PQ_CNT(queue) == g_cnt)
+__CPROVER_ensures(g_on ==> PQ_CURSOR_OK(queue))
 /* only index and its ancestors can change */
-__CPROVER_ensures(g_on && g_ki < PQ_LEN(queue) && !PQ_DESC(g_ki, index) ==> PQ_SLOT_SAME(queue))
-__CPROVER_ensures(g_on && g_ki < PQ_LEN(queue) && !g_moved ==> PQ_SLOT_SAME(queue))
+__CPROVER_ensures(g_on && (!PQ_DESC(g_ki, index) || !g_moved) ==> PQ_SLOT_SAME(queue))
 PQ_ENS_NO_HANDLE_LEAVES(queue)
 ;
 
@@ -247,21 +250,17 @@ __CPROVER_requires(PQ_STATE(queue))
 __CPROVER_requires(index < PQ_LEN(queue))
 __CPROVER_requires(PQ_HO_EXCEPT(queue, index))
 PQ_REQ_WITNESSES(queue)
-__CPROVER_assigns(PQ_A_ELEMS(queue))
-__CPROVER_assigns(PQ_A_BPS(queue))
-__CPROVER_assigns(PQ_A_POOL(queue))
+__CPROVER_requires(g_on ==> g_ki < PQ_LEN(queue))
+PQ_A_SIFT(queue)
 __CPROVER_ensures(PQ_STATE(queue) && PQ_HO(queue))
-__CPROVER_ensures(g_on ==> PQ_CNT(queue) == g_cnt)
-__CPROVER_ensures(g_on && g_ki < PQ_LEN(queue) && !PQ_DESC(g_ki, index) && !PQ_DESC(index, g_ki) ==> PQ_SLOT_SAME(queue))
+__CPROVER_ensures(g_on ==> PQ_CURSOR_OK(queue))
+__CPROVER_ensures(g_on && !PQ_DESC(g_ki, index) && !PQ_DESC(index, g_ki) ==> PQ_SLOT_SAME(queue))
 PQ_ENS_NO_HANDLE_LEAVES(queue)
 ;
 
 /* ------------------------------------------------------------------ removal */
-/* what every removal of slot `idx` promises (idx is an expression over the PRE-state, pinned through g_r_key/g_r_b) */
-#define PQ_REQ_REMOVED(q, idx)                                                                                         \
-    __CPROVER_requires(g_on && (idx) < PQ_LEN(q) ==> g_r_key == PQ_KEY(q, idx) && g_r_b == PQ_B(q, idx, g_pj))
 #define PQ_A_REMOVE(q, ok)                                                                                             \
-    __CPROVER_assigns((ok) : __CPROVER_object_upto((uint8_t *)item, ISZ), (q)->container.length)                       \
+    __CPROVER_assigns((ok) : __CPROVER_object_upto((uint8_t *)item, ISZ), (q)->container.length, g_pos)                \
     __CPROVER_assigns((ok) && PQ_LEN(q) > 0 : __CPROVER_object_upto(PQ_DATA(q), PQ_LEN(q) * ISZ))                      \
     __CPROVER_assigns((ok) && PQ_BP_LIVE(q) : (q)->backpointers.length, __CPROVER_object_whole(g_nodes))               \
     __CPROVER_assigns((ok) && PQ_BP_LIVE(q) && PQ_LEN(q) > 0 : __CPROVER_object_upto((uint8_t *)(q)->backpointers.data, PQ_LEN(q) * PQ_PSZ))
@@ -270,9 +269,9 @@ PQ_ENS_NO_HANDLE_LEAVES(queue)
     __CPROVER_ensures(PQ_STATE(q) && PQ_HO(q))                                                                         \
     __CPROVER_ensures(PQ_LEN(q) == OLD(PQ_LEN(q)) - ((ok) ? 1 : 0))                                                    \
     __CPROVER_ensures(PQ_CUR(q) == OLD(PQ_CUR(q)))                                                                     \
-    /* the element handed out is the one that was in the slot, and exactly one copy of it left the multiset */        \
-    __CPROVER_ensures(g_on && (ok) ==> ((uint8_t *)item)[0] == g_r_key && ((uint8_t *)item)[g_pj] == g_r_b)            \
-    __CPROVER_ensures(g_on ==> PQ_CNT(q) == g_cnt - ((ok) ? PQ_IN_CLASS(g_r_key, g_r_b) : 0))                          \
+    /* the element handed out is the one that was in the slot; every other element (with its handle) is still stored */ \
+    __CPROVER_ensures(g_on && (ok) && g_ki == (oidx) ==> ((uint8_t *)item)[0] == g_ki_key && ((uint8_t *)item)[g_pj] == g_ki_b) \
+    __CPROVER_ensures(g_on && (ok) && g_ki != (oidx) && g_ki < OLD(PQ_LEN(q)) ==> PQ_CURSOR_OK(q))                     \
     /* its handle is marked not-in-queue; every other handle keeps identifying its own element */                     \
     __CPROVER_ensures(g_on && g_h_inq && (ok) && g_h_idx == (oidx) ==> g_nodes[g_h].current_index == SIZE_MAX && !PQ_INQ(q, g_h)) \
     __CPROVER_ensures(g_on && g_h_inq && !((ok) && g_h_idx == (oidx)) ==> PQ_H_TRACKS(q))                              \
@@ -286,7 +285,6 @@ __CPROVER_requires(PQ_STATE(queue) && PQ_HO(queue))
 __CPROVER_requires(__CPROVER_w_ok(item, ISZ))
 __CPROVER_requires(item_index < PQ_LEN(queue))
 PQ_REQ_WITNESSES(queue)
-PQ_REQ_REMOVED(queue, item_index)
 PQ_A_REMOVE(queue, 1)
 __CPROVER_ensures(RET == AWS_OP_SUCCESS)
 PQ_ENS_REMOVE(queue, 1, item_index)
@@ -297,7 +295,6 @@ int aws_priority_queue_pop(struct aws_priority_queue *queue, void *item)
 __CPROVER_requires(PQ_STATE(queue) && PQ_HO(queue))
 __CPROVER_requires(__CPROVER_w_ok(item, ISZ))
 PQ_REQ_WITNESSES(queue)
-PQ_REQ_REMOVED(queue, 0)
 PQ_A_REMOVE(queue, PQ_LEN(queue) > 0)
 AL_ERR_FRAME(PQ_LEN(queue) == 0)
 __CPROVER_ensures(RET == AWS_OP_SUCCESS || RET == AWS_OP_ERR)
@@ -318,7 +315,6 @@ __CPROVER_requires(__CPROVER_w_ok(item, ISZ))
 __CPROVER_requires(PQ_IN_POOL(node))
 __CPROVER_requires(PQ_INQ_P(queue, node) || !PQ_BP_LIVE(queue) || node->current_index >= PQ_LEN(queue))
 PQ_REQ_WITNESSES(queue)
-PQ_REQ_REMOVED(queue, node->current_index)
 PQ_A_REMOVE(queue, PQ_REMOVE_OK_(PQ_BP_LIVE(queue), node->current_index, PQ_LEN(queue)))
 AL_ERR_FRAME(!PQ_REMOVE_OK_(PQ_BP_LIVE(queue), node->current_index, PQ_LEN(queue)))
 __CPROVER_ensures(RET == AWS_OP_SUCCESS || RET == AWS_OP_ERR)
@@ -352,19 +348,23 @@ __CPROVER_ensures(g_on && RET == AWS_OP_SUCCESS && g_ki < PQ_LEN(queue) ==> g_ra
 #define PQ_OLD_PUSH_OK(q, bp) PQ_PUSH_OK_(PQ_OLD_DYN(q), OLD(PQ_LEN(q)), OLD(PQ_CUR(q)), bp)
 #define PQ_OLD_BP_LIVE(q) (OLD((q)->backpointers.data) != NULL)
 
-/* bp: the handle expression (NULL for plain push).
+/* bp: the handle expression (NULL for plain push).  The ghost slot g_ki ranges over the old slots AND the slot
+ * `old length`, which stands for the pushed element.
  * success <=> dynamic queue, or static queue with room and no handle.  A full static queue refuses with
  * LIST_EXCEEDS_MAX_SIZE, a static queue refuses a handle with UNSUPPORTED_OPERATION (after rolling the element back);
- * either way the stored multiset, every slot and every handle are as before. */
+ * either way every slot and every handle are as before. */
 #define PQ_PUSH_CONTRACT(q, bp)                                                                                        \
     __CPROVER_requires(PQ_STATE(q) && PQ_HO(q))                                                                        \
     __CPROVER_requires(PQ_LEN(q) < PQN && PQ_CUR(q) <= PQ_CAPMAX * ISZ && (q)->backpointers.current_size <= PQ_CAPMAX * PQ_PSZ) \
     __CPROVER_requires(__CPROVER_r_ok(item, ISZ))                                                                      \
     PQ_REQ_WITNESSES(q)                                                                                                \
-    __CPROVER_assigns(PQ_DYN(q) || !PQ_FULL(q) : (q)->container.length)                                                \
+    __CPROVER_requires(g_on ==> g_ki <= PQ_LEN(q))                                                                     \
+    __CPROVER_requires(g_on && g_ki == PQ_LEN(q) ==> g_ki_key == ((const uint8_t *)item)[0] &&                         \
+                                                      g_ki_b == ((const uint8_t *)item)[g_pj] && g_ki_bp == (bp))      \
+    __CPROVER_assigns(PQ_DYN(q) || !PQ_FULL(q) : (q)->container.length, g_pos)                                         \
     __CPROVER_assigns(!PQ_FULL(q) : __CPROVER_object_upto(PQ_DATA(q), (PQ_LEN(q) + 1) * ISZ))                          \
     __CPROVER_assigns(PQ_DYN(q) && PQ_FULL(q) : (q)->container.data, (q)->container.current_size)                      \
-    __CPROVER_frees(PQ_DYN(q) && PQ_FULL(q) : (q)->container.data)                                                     \
+    __CPROVER_frees(PQ_DYN(q) && PQ_FULL(q) && (q)->container.data != NULL : (q)->container.data)                      \
     __CPROVER_assigns(PQ_DYN(q) && (PQ_BP_LIVE(q) || (bp) != NULL) : (q)->backpointers, __CPROVER_object_whole(g_nodes)) \
     __CPROVER_assigns(PQ_BP_LIVE(q) : __CPROVER_object_upto((uint8_t *)(q)->backpointers.data, (q)->backpointers.current_size)) \
     __CPROVER_frees(PQ_BP_LIVE(q) : (q)->backpointers.data)                                                            \
@@ -383,8 +383,9 @@ __CPROVER_ensures(g_on && RET == AWS_OP_SUCCESS && g_ki < PQ_LEN(queue) ==> g_ra
     __CPROVER_ensures((q)->container.alloc == OLD((q)->container.alloc))                                               \
     /* the handle array appears with the first handle and never goes away */                                          \
     __CPROVER_ensures(PQ_BP_LIVE(q) == (PQ_OLD_BP_LIVE(q) || (RET == AWS_OP_SUCCESS && (bp) != NULL)))                 \
-    /* multiset: exactly one copy of the pushed element was added */                                                  \
-    __CPROVER_ensures(g_on ==> PQ_CNT(q) == g_cnt + (RET == AWS_OP_SUCCESS ? PQ_IN_CLASS(((const uint8_t *)item)[0], ((const uint8_t *)item)[g_pj]) : 0)) \
+    /* every old element AND the pushed one (g_ki == old length) is stored, together with its handle (NULL for the   \
+     * old elements when the handle array is created by this call: zero-fill) */                                      \
+    __CPROVER_ensures(g_on && RET == AWS_OP_SUCCESS ==> PQ_CURSOR_OK(q))                                               \
     /* the new handle identifies the pushed element */                                                                \
     __CPROVER_ensures(g_on && RET == AWS_OP_SUCCESS && (bp) != NULL ==>                                                \
                       PQ_INQ_P(q, bp) && PQ_KEY(q, (bp)->current_index) == ((const uint8_t *)item)[0] &&               \
@@ -484,7 +485,7 @@ __CPROVER_ensures(RET != AWS_OP_SUCCESS ==> g_last_error == AWS_ERROR_OVERFLOW_D
 void aws_priority_queue_clean_up(struct aws_priority_queue *queue)
 __CPROVER_requires(PQ_STATE(queue))
 __CPROVER_assigns(queue->container, queue->backpointers)
-__CPROVER_frees(PQ_DYN(queue) : queue->container.data)
+__CPROVER_frees(PQ_DYN(queue) && queue->container.data != NULL : queue->container.data)
 __CPROVER_frees(PQ_BP_LIVE(queue) : queue->backpointers.data)
 __CPROVER_ensures(PQ_BP_ZERO(queue) && queue->container.alloc == NULL && PQ_LEN(queue) == 0 && PQ_CUR(queue) == 0 &&
                   queue->container.data == NULL && queue->container.item_size == 0)
